@@ -369,7 +369,8 @@ def match_known(known, prop_id, res, trace):
 def write_evidence(prop_id, payload):
     # evidence/ holds only what was measured on /repo itself; runs against a scratch copy
     # (sensitivity self-test, seeded changes through AK_REPO) write elsewhere
-    d = os.path.join(VERIF_DIR, "evidence" if AK_REPO == "/repo" else "scratch-evidence")
+    scratch = AK_REPO != "/repo" or os.environ.get("VERIF_SCRATCH_EVIDENCE")
+    d = os.path.join(VERIF_DIR, "scratch-evidence" if scratch else "evidence")
     os.makedirs(d, exist_ok=True)
     path = os.path.join(d, f"{prop_id}.json")
     tmp = path + ".tmp"
